@@ -30,6 +30,13 @@ def run(repo='/repo'):
         again, tail2 = run_once(repo, ids)
         passed |= again
         tail += '\n[re-run of %d tests] ' % len(ids) + tail2[-200:]
+        # what still does not pass: each test alone, up to three times
+        for m, nid in zip(missing, ids):
+            for _ in range(3):
+                if m in passed:
+                    break
+                one, _t = run_once(repo, [nid])
+                passed |= one
     missing = sorted(stable - passed)
     return missing, len(passed), tail
 
